@@ -134,6 +134,8 @@ def fsat_work(chunk):
                 x = k / 1000.0
                 for prec in range(4):
                     fsat_check(acc, x, prec)
+                    if k % 1000 == 0:
+                        fsat_check(acc, k // 1000, prec)          # whole seconds as int
     if not acc.samples:
         acc.samples.append(dict(seconds=a / 1000.0 + 59.9995, prec=3, text=U().format_seconds_as_time(a / 1000.0 + 59.9995, 3)))
     return acc.pack()
